@@ -408,6 +408,17 @@ impl<K: Kit> Drv<K> {
         self.params.connection_radius *= f;
     }
 
+    /// The user changes the public `goal_bias` field (tree planners).
+    pub fn set_goal_bias(&mut self, p: f64) {
+        match &mut self.planner {
+            AnyPlanner::Rrt(pl) => pl.goal_bias = p,
+            AnyPlanner::Connect(pl) => pl.goal_bias = p,
+            AnyPlanner::Star(pl) => pl.goal_bias = p,
+            AnyPlanner::Prm(_) => {}
+        }
+        self.params.goal_bias = p;
+    }
+
     pub fn snapshot(&self) -> Snap {
         let tn = |s: &K::S, p: Option<usize>, c: f64| TNode { s: K::flat(s), parent: p, cost: c };
         match &self.planner {
